@@ -313,8 +313,10 @@ def rule_support(ctx: Ctx):
                   "registry[key] is the executor of that key", gt.key, f"return {xshow(p.value, p.events)}")
     ei = ctx.fn("CallbacksExecutor.__iter__")
     for p in ctx.paths(ei, inline=None, exc_edges="none"):
-        rep.check(p.kind == "return" and xshow(p.value, p.events) == "iter(self.items)", "C02.keys", ei.loc(), "iterating an executor yields every wrapper it holds",
-                  ei.key, f"return {xshow(p.value, p.events)}")
+        v_ = xshow(p.value, p.events) if p.kind == "return" else ""
+        rep.check(v_ in ("iter(self.items)", "iter(tuple(self.items))", "iter(list(self.items))"), "C02.keys", ei.loc(),
+                  "iterating an executor yields every wrapper it holds", ei.key, f"return {v_}")
+    rule_snapshot_iteration(ctx, "C02.once")
     rule_spec_identity(ctx)
     inst = ctx.p.cls("InstanceState")
     want = {"name": "self._state().name", "value": "self._state().value", "transitions": "self._state().transitions", "enter": "self._state().enter",
@@ -691,6 +693,17 @@ def rule_failure_stops_sequence(ctx: Ctx, rule: str = "C02.order"):
                 n += 1
                 rep.violation(rule, fn.loc(nd), "callbacks are collected with asyncio.wait, which reports failures as values", fn.key, norm_stmt(nd))
     rep.floor(rule, "gather sites in the package", n, 1)
+
+
+def rule_snapshot_iteration(ctx: Ctx, rule: str = "C02.once"):
+    """A callback of the group being run may attach a listener (`add_listener` inserts into the executor's `items`): the group
+    runs over a snapshot, or the deque raises "mutated during iteration" in the middle of the transition."""
+    rep = ctx.rep
+    ei = ctx.fn("CallbacksExecutor.__iter__")
+    for p in ctx.paths(ei, inline=None, exc_edges="none"):
+        v_ = xshow(p.value, p.events) if p.kind == "return" else ""
+        rep.check(v_ != "iter(self.items)" and "self.items" in v_, rule, ei.loc(), "a running callback group iterates a snapshot of its callbacks "
+                  "(attaching a listener from inside a callback does not break the group)", ei.key, f"return {v_}")
 
 
 RULES = [rule_own_event_view, rule_order, rule_view, rule_plumbing, rule_keys, rule_support, rule_scope, rule_initial, rule_once, rule_providers, rule_awaited_once, rule_called_each_time, rule_failure_stops_sequence]
